@@ -11,6 +11,7 @@ import (
 	"reflect"
 	"runtime"
 	"strings"
+	"time"
 
 	"com.tuntun.rangers/node/src/storage/rlp"
 	"verif/harness/hx"
@@ -439,9 +440,12 @@ func main() {
 				res.Violate("C08/canonical-iface", "accepted bytes re-encode differently", map[string]string{"in": hex.EncodeToString(b), "re": hex.EncodeToString(re)})
 			}
 		}
-		k, content, rest, serr := rlp.Split(b)
+		k, content, rest, serr, span := safeSplit(b)
 		sob := ""
-		if serr != nil {
+		if span != nil {
+			res.Violate("C08/panic:Split", fmt.Sprint(span), hex.EncodeToString(b))
+			sob = "SErr 98"
+		} else if serr != nil {
 			sob = fmt.Sprintf("SErr %d", errCode(serr))
 		} else {
 			sob = fmt.Sprintf("SOk %d %s %s", int(k), hx.CoqHex(content), hx.CoqHex(rest))
@@ -456,9 +460,12 @@ func main() {
 				res.Violate("C08/canonical-split", "Split accepted a non-canonical header", map[string]string{"in": hex.EncodeToString(b), "canonical": hex.EncodeToString(re)})
 			}
 		}
-		cnt, cerr := rlp.CountValues(b)
+		cnt, cerr, cpan := safeCount(b)
 		cob := ""
-		if cerr != nil {
+		if cpan != nil {
+			res.Violate("C08/panic:CountValues", fmt.Sprint(cpan), hex.EncodeToString(b))
+			cob = "CErr 98"
+		} else if cerr != nil {
 			cob = fmt.Sprintf("CErr %d", errCode(cerr))
 		} else {
 			cob = fmt.Sprintf("COk %d", cnt)
@@ -634,4 +641,42 @@ func trunc2(s string) string {
 		return s[:160] + "…"
 	}
 	return s
+}
+
+// safeSplit runs rlp.Split under recover: a panic is a totality violation, not a harness crash.
+func safeSplit(b []byte) (k rlp.Kind, content, rest []byte, err error, pan interface{}) {
+	defer func() {
+		if r := recover(); r != nil {
+			pan = r
+		}
+	}()
+	k, content, rest, err = rlp.Split(b)
+	return
+}
+
+// safeCount runs rlp.CountValues under recover and a wall-clock cap (a non-terminating count is
+// reported as a panic-class violation; the stuck goroutine is abandoned).
+func safeCount(b []byte) (n int, err error, pan interface{}) {
+	type out struct {
+		n   int
+		err error
+		pan interface{}
+	}
+	ch := make(chan out, 1)
+	go func() {
+		var o out
+		defer func() {
+			if r := recover(); r != nil {
+				o.pan = r
+			}
+			ch <- o
+		}()
+		o.n, o.err = rlp.CountValues(b)
+	}()
+	select {
+	case o := <-ch:
+		return o.n, o.err, o.pan
+	case <-time.After(10 * time.Second):
+		return 0, nil, "CountValues did not terminate within 10s"
+	}
 }
